@@ -141,6 +141,82 @@ def e2_attr_grammar(rep: C.Report) -> None:
         ob.detail += f"{type(e).__name__}: {e}"
 
 
+def permitted_parents(rep: C.Report) -> None:
+    """Ob4: the permitted-parent relation that drives tag_fn's auto-close equals the content-model rule stated in
+    wikihtml.py's header: child c may sit directly in parent p iff p is named in c's parents, or c asks for 'flow' and p takes
+    flow content, or c asks for 'phrasing' (or '*') and p takes phrasing content (flow implies phrasing; '*' content takes both).
+    The relation computed by the real set_html_tag_data and the rule are both loaded into z3 as finite relations; z3 looks
+    for a pair on which they differ (finite domain - degenerate use of the solver, said openly); a pair is replayed
+    through Wtp.parse('<p>a<c>b</c>d</p>')."""
+    ob = rep.add(C.Ob("Ob4 permitted-parent relation (auto-close) equals the HTML content-model rule", "z3 over the relation computed by the real code (finite) + replay", ["parser.py:set_html_tag_data", "wikihtml.py:ALLOWED_HTML_TAGS"], "all ordered pairs of tags of the allowed-tag table"))
+    try:
+        from wikitextprocessor import Wtp
+        from wikitextprocessor.parser import HTMLNode, WikiNode
+
+        w = Wtp(quiet=True, quiet_output=True)
+        tags = sorted(w.allowed_html_tags)
+        real = w.html_permitted_parents
+
+        def takes(p, cat):
+            content = w.allowed_html_tags[p].get("content", [])
+            if "*" in content:
+                return True
+            if cat == "flow":
+                return "flow" in content
+            return "phrasing" in content or "flow" in content
+
+        def rule(p, c):
+            parents = w.allowed_html_tags[c].get("parents", [])
+            return p in parents or (("flow" in parents or "*" in parents) and takes(p, "flow")) or (("phrasing" in parents or "*" in parents) and takes(p, "phrasing"))
+
+        P, Cc = z3.Ints("p c")
+        R = z3.Function("real", z3.IntSort(), z3.IntSort(), z3.BoolSort())
+        S = z3.Function("rule", z3.IntSort(), z3.IntSort(), z3.BoolSort())
+        s = z3.Solver()
+        for i, p in enumerate(tags):
+            for j, c in enumerate(tags):
+                s.add(R(i, j) == (p in real.get(c, set())), S(i, j) == rule(p, c))
+        s.add(P >= 0, P < len(tags), Cc >= 0, Cc < len(tags), R(P, Cc) != S(P, Cc))
+        ob.conditions = 1
+        pairs = []
+        while len(pairs) < 200:
+            r = str(s.check())
+            ob.queries += 1
+            ob.paths += 1
+            if r != "sat":
+                break
+            m = s.model()
+            i, j = m[P].as_long(), m[Cc].as_long()
+            pairs.append((tags[i], tags[j]))
+            s.add(z3.Not(z3.And(P == i, Cc == j)))
+        ob.samples.append({"tags": len(tags), "pairs_checked": len(tags) ** 2, "differing_pairs": pairs[:8]})
+        if not pairs:
+            ob.verdict = C.DISCHARGED
+            ob.confirmed_conditions = 1
+            return
+        hit = None
+        for p, c in pairs:
+            if w.allowed_html_tags[p].get("no-end-tag") or w.allowed_html_tags[c].get("no-end-tag"):
+                continue
+            doc = f"<{p}>a<{c}>b</{c}>d</{p}>"
+            x = Wtp(quiet=True, quiet_output=True)
+            x.start_page("T")
+            root = x.parse(doc)
+            top = [n for n in root.children if isinstance(n, WikiNode)]
+            nested = bool(top) and isinstance(top[0], HTMLNode) and top[0].sarg == p and any(isinstance(k, HTMLNode) and k.sarg == c for k in top[0].children)
+            if nested != rule(p, c):
+                hit = (doc, nested, rule(p, c))
+                break
+        if hit:
+            v = rep.violation("parse(" + repr(hit[0]) + ")", f"<{hit[0].split('>')[0][1:]}> {'keeps' if hit[1] else 'is closed before'} the inner element, the content model says it {'may' if hit[2] else 'may not'} contain it", {"doc": hit[0]})
+            ob.verdict = C.VIOLATED if v.known is None else C.KNOWN
+            ob.confirmed_conditions = 1
+        else:
+            ob.detail = f"relation differs from the rule on {pairs[:4]} but parse() nests as the rule says -> inconclusive"
+    except Exception as e:  # noqa: BLE001
+        ob.detail += f"{type(e).__name__}: {e}"
+
+
 def run(rep: C.Report) -> None:
     quick = C.tier() == "quick"
     rep.explanation = (
@@ -169,6 +245,7 @@ def run(rep: C.Report) -> None:
     except Exception as e:  # noqa: BLE001
         rep.add(C.Ob("Ob1/Ob2", "E1 CrossHair", [], "", verdict=C.NOT_ENCODABLE, detail=f"{type(e).__name__}: {e}"))
     e2_attr_grammar(rep)
+    permitted_parents(rep)
 
 
 def replay(r: dict) -> int:
